@@ -83,7 +83,7 @@ def build(flavor="san", quiet=True):
             f.write("/* fallback when the autotools-generated header is absent */\n")
     common_c = ["-std=gnu99", "-D_GNU_SOURCE", "-D" + GUARD, "-I" + REPO, "-I" + os.path.join(REPO, "htp"), "-I" + stub_inc, "-w"]
     auto_gen = os.path.join(REPO, "htp_config_auto_gen.h")
-    lib_key = sha_files(csrc + hdrs + ([auto_gen] if os.path.exists(auto_gen) else []), " ".join(lib_flags + common_c + REDEFINE) + "v3")
+    lib_key = sha_files(csrc + hdrs + ([auto_gen] if os.path.exists(auto_gen) else []), " ".join(lib_flags + common_c + REDEFINE) + "v4" + flavor)
     sim_src = sorted(glob.glob(os.path.join(SIM, "*.cpp")))
     sim_hdr = sorted(glob.glob(os.path.join(SIM, "*.h")))
     har_key = sha_files(sim_src + sim_hdr + hdrs, " ".join(har_flags) + "v3")
@@ -98,10 +98,14 @@ def build(flavor="san", quiet=True):
     try:
         if os.path.exists(exe):
             return exe
-        redef = os.path.join(BUILD, "redefine.syms")
+        redef = os.path.join(BUILD, "redefine-%s.syms" % flavor)
         with open(redef, "w") as f:
             for s in REDEFINE:
                 f.write("%s sim_%s\n" % (s, s))
+            if flavor == "own":
+                # bulk writes are not seen by trace-stores: route them through the ownership oracle as well
+                for s in ("__asan_memcpy", "__asan_memmove", "__asan_memset", "memcpy", "memmove", "memset", "strncpy"):
+                    f.write("%s simown_%s\n" % (s, s.replace("__asan_", "asan_")))
         # ---- private copy of zlib with its allocations behind the seam
         zlib_a = os.path.join(zdir, "libzpriv.a")
         if not os.path.exists(zlib_a):
@@ -281,6 +285,12 @@ PROPS = {
                 technique="deterministic simulation with allocation-failure injection at the allocator seam, enumerated over every allocation index of seeded histories",
                 design_ref="DESIGN.md section 7 C18",
                 rule="corpus entries: .t captures, CONNECT scripts, compressed responses (gzip, deflate, lzma, two layers) with cookies/credentials/query parameters, multipart uploads with file extraction, grammar exchanges; random configuration, optional gap/close/abort, per-tx hook registration, tx disposal. A case = (history, k); non-trivial = the injected failure was actually reached; distinct = distinct behaviour signature of the history."),
+    "C19": dict(flavor="own", level="exploration", registered=False,
+                claim="Three deterministic oracles over 2-8 connections sharing one configuration: (1) each connection's transactions, bodies and callback sequence equal those of the same connection run alone, under call-level interleaving on one thread; (2) the same under one real thread per connection with a seeded baton scheduler that pre-empts at compiler-inserted basic-block callbacks inside libhtp (exactly one thread runnable, switch points decided by a PRNG stored in the plan); (3) a memory-ownership oracle on every load and store libhtp makes (trace-loads/trace-stores build): a store into the shared configuration, its hook lists or a writable static while parsing, or any access to a block allocated by another connection's task, is a violation on first execution, whatever the schedule.",
+                note="TSan is not used for verdicts (blind under a serialising scheduler; free-running threads would be runtime monitoring). The writable-statics watch list is read from the freshly built objects with nm at every run. zlib's own code is not instrumented for loads/stores.",
+                technique="deterministic simulation: seeded baton scheduler over real threads with basic-block pre-emption + call-level interleaving; solo-equivalence and memory-ownership oracles",
+                design_ref="DESIGN.md section 7 C19",
+                rule="2-8 connections per run (grammar scripts, CONNECT scripts, gzip responses, captures, mutations) on one htp_cfg_t; 1/3 call-level interleaving, 2/3 threaded with pre-emption every ~3/10/40/200/2000 basic blocks; every connection re-run alone and compared. Non-trivial = >= 1 transaction completed; distinct = behaviour signature xor schedule hash."),
     "C03": dict(flavor="san", level="exploration",
                 claim="Differential simulation: the same seeded well-formed history is delivered under two segmentations of the simulated wire and everything the statement lists is compared; exhaustive single-cut sweeps for short histories are visited by consecutive run indices, the rest is seeded sampling.",
                 note="Domain is the CRLF grammar of DESIGN.md section 4 (bare-LF traffic is exercised only under the all-input properties); log messages, connection flags and return codes are not compared.",
@@ -468,6 +478,22 @@ def check_property(prop, tier, seed, replay=None):
             print("VIOLATION property=%s replay=%s" % (prop, replay))
             return 1
         return 0
+    if spec["flavor"] == "own":
+        # watch list of the shared-memory oracle: writable-section symbols of the freshly built (unsanitised) libhtp objects
+        try:
+            plain = build("plain")
+            names = sorted(set(w["sym"] for w in (lib_info(plain).get("writable_statics") or []) if not w["sym"].startswith("__")))
+            r = sh(["nm", "-S", exe])
+            items = []
+            for line in r.stdout.splitlines():
+                parts = line.split()
+                if len(parts) == 4 and parts[3] in names and parts[2] in "DdBb":
+                    items.append("0x%s:%d:%s" % (parts[0], int(parts[1], 16), parts[3]))
+            os.environ["VERIF_STATICS"] = ",".join(items)
+            print("shared-memory watch list:", ", ".join(i.split(":")[2] for i in items) or "(none)")
+        except BuildError as e:
+            print("MACHINERY-ERROR: build failed\n%s" % e)
+            return 2
     budget = float(os.environ.get("VERIF_BUDGET_S", spec.get("budget", {}).get(tier, 45 if tier == "quick" else 600)))
     workers = int(os.environ.get("VERIF_WORKERS", 14))
     outdir = os.path.join(OUT, prop)
@@ -646,7 +672,7 @@ def main(argv):
         return 0
     if argv and argv[0] == "--setup":
         try:
-            for fl in ("san", "plain"):
+            for fl in ("san", "plain", "own"):
                 print("built", build(fl))
         except BuildError as e:
             print("BUILD FAILED\n%s" % e)
